@@ -1,10 +1,14 @@
 (* Pinned statements of C03: re-checked on every run. *)
-From SF Require Import Base.Prelude Gen.Generated Unsized.Types Unsized.Parse Unsized.Machine Unsized.Ops Unsized.Run Unsized.Proofs.EncodeParse Unsized.Proofs.Mem Unsized.Proofs.Notify Unsized.Proofs.Flat Unsized.Proofs.Layout Unsized.Proofs.Observe Unsized.Proofs.Path Unsized.Proofs.Context Unsized.Proofs.FocusOps Unsized.Proofs.NotifyInside Unsized.Proofs.Resize Unsized.Proofs.GenOps Unsized.Proofs.History Unsized.Proofs.Init Unsized.Proofs.History2 Unsized.Proofs.ExecTie Properties.C03.
+From SF Require Import Base.Prelude Gen.Generated Unsized.Types Unsized.Parse Unsized.Machine Unsized.Ops Unsized.Run Unsized.Proofs.EncodeParse Unsized.Proofs.Mem Unsized.Proofs.Notify Unsized.Proofs.Flat Unsized.Proofs.Layout Unsized.Proofs.Observe Unsized.Proofs.Path Unsized.Proofs.Context Unsized.Proofs.FocusOps Unsized.Proofs.NotifyInside Unsized.Proofs.Resize Unsized.Proofs.GenOps Unsized.Proofs.History Unsized.Proofs.Init Unsized.Proofs.History2 Unsized.Proofs.ExecTie Unsized.Proofs.History3 Unsized.Proofs.Enums Properties.C03.
 
 Check (C03_all_ops_no_fault_in_any_history :
   forall ovf t h v s top pi0 v',
     RepF pi0 t v s top -> m_refuse s <> 1 -> orunX (m_cap s) t v h = Some v' ->
     exists s' top', mrunX ovf t s top h = Ok (s', top') /\ top_check s' top' = true /\ m_len s' <= m_cap s' /\ m_cap s' = m_cap s).
+Check (C03_no_fault_in_any_full_history :
+  forall ovf t h v s top pi0 v' obss,
+    RepF pi0 t v s top -> m_refuse s <> 1 -> orunZ (m_cap s) t v h = Some (v', obss) ->
+    exists s' top', mrunZ ovf t s top h = Ok (s', top', obss) /\ top_check s' top' = true /\ m_len s' <= m_cap s' /\ m_cap s' = m_cap s).
 Check (C03_general_no_fault_in_any_history :
   forall ovf t h v s top pi0 v' l,
     RepF pi0 t v s top -> m_refuse s <> 1 -> orunE (m_cap s) (m_refuse s) t v h = Some (v', l) ->
@@ -33,6 +37,7 @@ Check (C03_swapped_accessor_detected :
   forall p lo hi cursor a, lo <= hi -> In a (addrs p) -> (a < lo \/ hi < a) -> fst (check_ptrs p lo hi cursor) = false).
 
 Print Assumptions C03_all_ops_no_fault_in_any_history.
+Print Assumptions C03_no_fault_in_any_full_history.
 Print Assumptions C03_general_no_fault_in_any_history.
 Print Assumptions C03_general_pointer_assertions_hold.
 Print Assumptions C03_notify_stays_in_allocation.
